@@ -496,7 +496,12 @@ fn process_tags(
             };
             #[cfg(feature = "verif")]
             crate::verif::elem_enter(context);
+            let snapshot = context.snapshot();
             let gen_result = t.generate_events(context);
+            if gen_result.is_err() {
+                // a failed attempt must leave no trace: it will be retried later
+                context.restore(snapshot);
+            }
             #[cfg(feature = "verif")]
             crate::verif::elem_exit(context, gen_result.is_ok());
             if let Err(err) = &gen_result {
